@@ -30,6 +30,9 @@ type sliceOrigin struct {
 	reason string
 }
 
+// originAt: the position of the use sliceOriginOf is asked about (set by the caller; NoPos: all assignments count).
+var originAt token.Pos
+
 func (c *Ctx) sliceOriginOf(pkg *packages.Package, fn ast.Node, obj types.Object, depth int) sliceOrigin {
 	info := pkg.TypesInfo
 	if obj == nil {
@@ -137,9 +140,33 @@ func (c *Ctx) sliceOriginOf(pkg *packages.Package, fn ast.Node, obj types.Object
 		}
 		return sliceOrigin{false, "the expression " + nodeStr(c.Fset, e)}
 	}
+	// an unconditional refresh in front of the use (items = slices.Clone(items), a statement of the function body itself)
+	// replaces whatever the variable held before: earlier assignments no longer matter for that use
+	cutoff := token.NoPos
+	if originAt != token.NoPos && depth == 0 {
+		if body := funcBody(fn); body != nil {
+			for _, st := range body.List {
+				as, ok := st.(*ast.AssignStmt)
+				if !ok || as.Pos() >= originAt || len(as.Lhs) != 1 || len(as.Rhs) != 1 {
+					continue
+				}
+				if id, ok := as.Lhs[0].(*ast.Ident); !ok || info.ObjectOf(id) != obj {
+					continue
+				}
+				if call, ok := ast.Unparen(as.Rhs[0]).(*ast.CallExpr); ok {
+					if cal := Callee(info, call); cal != nil && cal.Pkg() != nil && cal.Pkg().Path() == "slices" && cal.Name() == "Clone" {
+						cutoff = as.Pos()
+					}
+				}
+			}
+		}
+	}
 	ast.Inspect(funcBody(fn), func(n ast.Node) bool {
 		switch t := n.(type) {
 		case *ast.AssignStmt:
+			if t.Pos() < cutoff {
+				return true
+			}
 			for i, l := range t.Lhs {
 				id, ok := l.(*ast.Ident)
 				if !ok || info.ObjectOf(id) != obj {
@@ -213,7 +240,9 @@ func ruleR091(c *Ctx) {
 			key := fmt.Sprintf("%s#in-place-%s:%s", fname, what, nodeStr(c.Fset, base))
 			switch t := base.(type) {
 			case *ast.Ident:
+				originAt = t.Pos()
 				o := c.sliceOriginOf(pkg, fn, info.ObjectOf(t), 0)
+				originAt = token.NoPos
 				if o.fresh {
 					c.OK(key, pos, "%s modifies a slice this function allocated itself (%s)", what, o.reason)
 				} else {
@@ -298,7 +327,9 @@ func ruleR091(c *Ctx) {
 				return true
 			}
 			obj := info.ObjectOf(id)
+			originAt = call.Pos()
 			o := c.sliceOriginOf(pkg, fn, obj, 0)
+			originAt = token.NoPos
 			// later writes by this function
 			laterWrite := false
 			ast.Inspect(body, func(y ast.Node) bool {
@@ -656,7 +687,10 @@ func (c *Ctx) structFieldFresh(pkg *packages.Package, sel *ast.SelectorExpr) str
 						continue
 					}
 					fn := c.EnclosingFunc(cl)
-					if o := c.sliceOriginOf(pkg, fn, info.ObjectOf(id), 0); !o.fresh {
+					originAt = cl.Pos()
+					o := c.sliceOriginOf(pkg, fn, info.ObjectOf(id), 0)
+					originAt = token.NoPos
+					if !o.fresh {
 						msg = fmt.Sprintf("the constructor at %s fills it with %s, which is %s", c.posStr(cl.Pos()), id.Name, o.reason)
 					}
 				}
